@@ -29,6 +29,7 @@ U_LEMMAS = {'spec': 'lemmas.spec', 'dependency': True}
 U_SCOPE = {'spec': 'scope.spec'}
 U_SCOPE_DEP = {'spec': 'scope.spec', 'dependency': True}
 U_UPER = {'spec': 'uper.spec'}
+GLUE_ZOO = ['zootypes.asn', 'zoosets.asn', 'zooshapes.asn']
 UPER_NOT = ['impl Reader for UperReader: read_printable_string, read_visible_string (chunks_exact_mut / try_for_each: iterator adapters)',
             'impl Writer for UperWriter: write_ia5string, write_numeric_string, write_printable_string, write_visible_string (str::chars() loops)',
             'descriptor/*.rs one-line ReadableType / WritableType impls except the blanket impl and Option<T>', 'generated write_seq / read_seq / choice content (walker.rs): contract ASSUMED at the trait (sequence::Constraint, choice::Constraint)']
@@ -90,6 +91,7 @@ PROPS = {
     },
     'C03': {
         'verus': [U_SCOPE, U_UPER, U_PER_DEP, U_BITS_DEP],
+        'glue': GLUE_ZOO,
         'search_groups': ['seq'],
         'bounded_search': [('seq', 'all SEQUENCE shapes with n <= 4 components x kinds {mandatory, OPTIONAL, DEFAULT} x marker position x all presence patterns through the real Writer/Reader API against an X.691 reference encoding; cross-version pairs with up to 5 components')],
         'assumptions': [
@@ -110,6 +112,7 @@ PROPS = {
     },
     'C05': {
         'verus': [U_SCOPE, U_UPER, U_PER_DEP, U_BITS_DEP],
+        'glue': GLUE_ZOO,
         'search_groups': ['seq'],
         'bounded_search': [('seq', 'all SEQUENCE shapes with n <= 4 components x kinds {mandatory, OPTIONAL, DEFAULT} x marker position x all presence patterns through the real Writer/Reader API against an X.691 reference encoding; cross-version pairs with up to 5 components')],
         'assumptions': [
@@ -123,6 +126,7 @@ PROPS = {
     },
     'C01': {
         'verus': [U_UPER, U_SCOPE, U_PER, U_BITS_DEP, U_LEMMAS],
+        'glue': GLUE_ZOO,
         'search_groups': ['zoo', 'seq', 'per'],
         'bounded_search': [
             ('zoo', 'BOUNDED in programs (6 generated types: extensible SEQUENCE with OPTIONAL last root component, OPTIONAL/DEFAULT/extensible INTEGER mix, extensible ENUMERATED, extensible CHOICE, constrained SEQUENCE OF, nesting) '
@@ -153,6 +157,7 @@ PROPS = {
         'verus': [U_UPER, U_PER, U_SCOPE, U_BITS_DEP, U_LEMMAS],
         'kani_thorough': [('per_cwn', 2400, True), ('per_nnbi_constrained', 3000, True), ('per_semi', 2400, True), ('per_nsnnwn', 2400, True),
                           ('per_uwn', 2400, True), ('per_2c', 2400, True)],
+        'glue': GLUE_ZOO,
         'search_groups': ['zoo', 'per', 'seq'],
         'bounded_search': [
             ('zoo', 'BOUNDED in programs: 6 generated types through the real proc macro, bit-exact against hand-composed X.691 reference encodings (see C01)'),
@@ -298,6 +303,7 @@ PROPS = {
 # function-name pattern -> directed-search group of the replay binary
 SEARCH_GROUPS = [
     (r'bit_string_copy|slice\.rs|buffer\.rs', 'bits'),
+    (r'^glue::', 'zoo'),     # failed obligation on macro output: the zoo group runs the same generated types
 ]
 KANI_GROUP = {'charset_is_valid': 'charset', 'per_cwn': 'per', 'per_nnbi_constrained': 'per', 'per_semi': 'per', 'per_nsnnwn': 'per', 'per_uwn': 'per', 'per_2c': 'per',
               'per_length_determinant': 'per', 'per_index': 'per'}
